@@ -71,6 +71,8 @@ pub const ALPHABET: &[&str] = &[
     "// cr\u{e000}\u{e000}",
     "Creator:\u{040a}",
     "Source: \u{0a05}x\u{4e0a}",
+    // code units whose bytes form 00 0A / 0A 00 across a unit boundary (big- / little-endian false line feeds)
+    "Tags: \u{4e00}\u{0a81}\u{4e00} \u{3000}\u{0a0a}\u{3000}",
 ];
 
 /// U+E000 in an alphabet entry stands for one invalid UTF-8 byte (0xE9) in the UTF-8 form of the file
